@@ -41,6 +41,8 @@ TwoVals   == {-2, 5}
 NoFaults  == {}
 OneGlyph  == {1}
 TwoGlyphs == {2}
+TieFeats  == {"mul", "div"}
+OneFineVal == {7 * U + 1}
 ThreeGlyphs == {3}
 \* operators with interpreter-level state that must not leak from one charstring to the next
 StateFeats == {"get", "put", "hstem", "vstemhm", "hintmask", "cntrmask", "random", "callsubr"}
@@ -49,7 +51,7 @@ FontNGs   == {1, 3}      \* half of the simulated fonts have three glyphs
 FaultNGs  == {1, 2}      \* the faulty glyph alone, or after a well-formed one
 NoExcl    == {}
 MixOnly   == {"mix"}
-AllFeats  == DrawOps \cup StemOps \cup MaskOps \cup ArithOps \cup CallFeats \cup {"base"}
+AllFeats  == DrawOps \cup StemOps \cup MaskOps \cup ArithOps \cup CallFeats \cup {"base", "endchar"}
 PathFeats == DrawOps \cup StemOps \cup MaskOps \cup {"base"}    \* what the encoder of C04 can emit
 ExFeats   == AllFeats \ {"deep10"}    \* the ten-deep nesting is left to simulation (state space)
 =============================================================================
